@@ -107,6 +107,16 @@ def cases(tier):
             s = base(hyd, rule, clock)
             s["controls"] = [dict(c, name="c0")]
             out.append(s)
+    # order of API calls: the same single clock-time controls / rules, but options.time.start_clocktime is assigned AFTER the
+    # controls were added to the model (the clock offset belongs to the run, not to the moment a condition was created)
+    for c in singles:
+        if c["kind"] != "clock" or c.get("repeat") is False:
+            continue        # (a fire-once condition stores its first day when it is created: an API detail outside the statement)
+        for clock, hyd in itertools.product((3 * H, 22 * H), (H,) if tier == "quick" else (H, 1800)):
+            s = base(hyd, 360, clock)
+            s["controls"] = [dict(c, name="c0")]
+            s["late_clock"] = True
+            out.append(s)
     # sets of two: second control opens (or has another priority)
     A = [ctl("time", "=", t, "CLOSED") for t in (H, H + 21 * 60 + 40, 2 * H)] + [ctl("clock", "=", c, "CLOSED") for c in (H, 6 * H + 1800)]
     A += [ctl("time", rel, t, "CLOSED", rule=True, prio=p) for rel in (">=", "<", "=") for t in (H, H + 18 * 60) for p in (1, 5)]
@@ -206,7 +216,7 @@ def cases(tier):
         return False
     out = [s for s in out if not epanet_extra_instant(s)]
     for s in out:
-        s["id"] = {"controls": s["controls"], "clock": s["opts"]["clock"], "hyd": s["opts"]["hyd"], "rule": s["opts"]["rule"]}
+        s["id"] = {"controls": s["controls"], "clock": s["opts"]["clock"], "hyd": s["opts"]["hyd"], "rule": s["opts"]["rule"], "late_clock": bool(s.get("late_clock"))}
     return out
 
 
@@ -339,13 +349,22 @@ def run_case(s):
         if t not in en_times:
             return {"viol": [], "harness": "reference timeline changes at t=%d, which EPANET does not visit (%s)" % (t, s["controls"]), "counts": counts}
     # ---- WNTR
-    r = simulate(s)
+    if s.get("late_clock"):
+        s0 = clone(s)
+        s0["opts"]["clock"] = 0
+        wn = build(s0)
+        wn.options.time.start_clocktime = s["opts"]["clock"]
+        r = simulate(s, wn=wn)
+    else:
+        r = simulate(s)
     if r.error:
         viol.append({"key": "run-fails", "what": "WNTRSimulator did not complete: %s" % r.warnings[:1]})
         return {"viol": viol, "counts": counts}
     kinds = "+".join(sorted(set(("rule-" if c.get("rule") else "simple-") + c["kind"] + ("-repeat" if c.get("repeat") not in (None, False) and c["kind"] == "time" else "") + ("-once" if c.get("repeat") is False else "") + ("" if not c.get("rule") else ":" + c["rel"]) for c in s["controls"])))
     if len(targets) > 1:
         kinds = "multi-target:" + kinds
+    if s.get("late_clock"):
+        kinds = "start_clocktime-set-after-controls:" + kinds
     counts["solved_instants"] = len(r.times)
     for l in targets:
         st = r.link["status"][l]
